@@ -22,7 +22,9 @@ def run(name, meta, tier="quick"):
     v["patch_applies"] = rc == 0
     if rc != 0:
         v["apply_error"] = out[-400:]
+        meta["alarms_" + tier] = ["PATCH-DOES-NOT-APPLY"]
         return
+    v.pop("apply_error", None)
     rc, out = S.sh("go build ./core/... ./limit/... ./limiter/... ./strategy/... ./measurements/... ./metric_registry/... ./grpc/... ./patterns/...", cwd=tree, env=S.goenv())
     v["compiles"] = rc == 0
     fails = 0
